@@ -183,6 +183,18 @@ def run_case(c) -> dict:
         if got != kids:
             f["C14:keyset-kids-differ"] = f"kids in the key set {got!r}; expected {kids!r}"
             return f
+    if c["op"] == "produce" and c["kidstate"] == "absent" and c["seed"] % 4 == 1 and len(c["keys"]) > 1 and not c.get("shared_params") and not c.get("peek_kid"):
+        # the producing side's set grew after it was built: its last key was appended to .keys later and has no kid of its own yet
+        # (the key chosen for a token still gets its kid recorded; the consuming side holds an ordinary set)
+        grown = build_sets(dict(c, keys=c["keys"][:-1], kids=c["kids"][:-1]))[0 if kind == "jws" else 1]
+        last = gk.key_from_record(c["keys"][-1])
+        late = jkey(last if (kind == "jws" or last["kty"] == "oct") else rk.public_of(last), "pem" if c["kids"][-1] is None and last["kty"] != "oct" else "dict",
+                    kind == "jws" or last["kty"] == "oct", {"kid": c["kids"][-1]} if c["kids"][-1] is not None else None)
+        grown.keys.append(late)
+        if kind == "jws":
+            privset = grown
+        else:
+            pubset = grown
     hk = header_kid(c)
     tkey = refkeys[c["target"]]
     signer = refkeys[c["other"]] if c["kidstate"] == "mislabelled" else tkey
